@@ -14,7 +14,7 @@ def rebuild_for_replay(rec):
 
 
 def run(chk):
-    chk.run('asan', build(), chk.pick(1000, 5000))
+    chk.run('asan', build(), chk.pick(1000, 60000))
     if not chk.quick():
         r = chk.run('exhaustive', build(), (EXH_CASES + vf.NCPU - 1) // vf.NCPU, args=['--mode', 'exh'], timeout=3000)
         n = r.counts.get('exh_sequences', 0)
